@@ -59,7 +59,7 @@ def main():
             if props and not (props & set(m["props"])): continue
             path = os.path.join(wt, m["file"])
             src = open(path).read()
-            if src.count(m["old"]) != 1:
+            if src.count(m["old"]) != m.get("count", 1):
                 print("MUTANT %s: anchor occurs %d times in %s - skipped" % (m["id"], src.count(m["old"]), m["file"]))
                 results.append(dict(id=m["id"], error="anchor count %d" % src.count(m["old"])))
                 continue
